@@ -118,6 +118,10 @@ func H_C11_featureset() {
 		vpAssert(ra == on("a", la), "a")
 		vpAssert(rb == vpAnd(on("b", lb), on("c", false)), "b and c")
 		vpAssert(rz == on("a", la), "unknown feature names are never enabled")
+		rn, _ := fs.Resolve(&IfFeature{expr: "not a"})
+		vpAssert(rn == !on("a", la), "not a (false when everything is on)")
+		_, errBad := fs.Resolve(&IfFeature{expr: "a and"})
+		vpAssert(errBad != nil, "a malformed expression is an error in every configuration")
 	}
 	vpCover("reached")
 }
